@@ -1,5 +1,6 @@
 //! Engine B: world generator + in-process drivers for all generators.
 mod backends;
+mod c15;
 mod c16;
 
 use proptest::prelude::*;
@@ -27,6 +28,7 @@ fn main() {
     }
     let mut check = vcommon::Check::new(&args);
     match args.id.as_str() {
+        "C15" => c15::run(&mut check),
         "C16" => c16::run(&mut check),
         other => vcommon::harness_error(format!("genrun does not serve {other}")),
     }
